@@ -12,7 +12,7 @@ import (
 )
 
 func init() {
-	register("C03", "Structural clauses of receiver containment, decided for every packet sequence because they hold on every path of the receive loop and the disk writer: each received entry passes the order validator and the hard-link validator (both checked) before it is forwarded to the writer, directly or through the replay stack; the validator has a fatal test for every lexical rejection class (unclean, absolute, '.', '..', '../' prefix) and rejects the orderings equal/greater and a foreign parent; a hard link whose source was not received is fatal; DATA for an unknown id is fatal; every filesystem call reachable from the disk writer is classified, and no symlink-following call is applied to a destination path outside a reasoned table; replacement decisions are Lstat-based. The validator's open-directory stack is never re-sliced past its current length (shared with C12). Does not decide races with concurrent modification of the destination nor symlinks in intermediate components.", runC03)
+	register("C03", "Structural clauses of receiver containment, decided for every packet sequence because they hold on every path of the receive loop and the disk writer: each received entry passes the order validator and the hard-link validator (both checked) before it is forwarded to the writer, directly or through the replay stack; the validator has a fatal test for every lexical rejection class (unclean, absolute, '.', '..', '../' prefix) and rejects the orderings equal/greater and a foreign parent; a hard link whose source was not received is fatal; DATA for an unknown id is fatal; every filesystem call reachable from the disk writer is classified, and no symlink-following call is applied to a destination path outside a reasoned table; replacement decisions are Lstat-based. What a DATA packet is written to is the pipe looked up under that packet's id, not one remembered from an earlier packet. The validator's open-directory stack is never re-sliced past its current length (shared with C12). Does not decide races with concurrent modification of the destination nor symlinks in intermediate components.", runC03)
 }
 
 func runC03(c *Ctx) {
@@ -654,6 +654,79 @@ func r03_5(c *Ctx, rule string) {
 	default:
 		c.R.OK(rule, base+"/unknown-id-fatal", c.pos(look), "DATA for an unknown id ends the receive loop with an error before anything is written")
 	}
+	// what is written to is what this packet's id was just looked up to: a pipe
+	// remembered from an earlier packet may have been closed and removed from
+	// the table since (its file is done), and the table is what says whether
+	// content for an id was requested
+	var classify func(v ssa.Value, d int, seen map[ssa.Value]bool) int
+	classify = func(v ssa.Value, d int, seen map[ssa.Value]bool) int {
+		if v == nil || d > 8 {
+			return 0
+		}
+		if seen[v] {
+			return 1
+		}
+		seen[v] = true
+		if e, ok := v.(*ssa.Extract); ok && e.Tuple == ssa.Value(look) && e.Index == 0 {
+			return 1
+		}
+		if rs := eng.ResolveAll(v); len(rs) > 1 || (len(rs) == 1 && rs[0] != v) {
+			res := 1
+			for _, r := range rs {
+				if k := classify(r, d+1, seen); k < res {
+					res = k
+				}
+			}
+			return res
+		}
+		switch y := v.(type) {
+		case *ssa.Phi:
+			res := 1
+			for i, e := range y.Edges {
+				// carried around the receive loop: a value of an earlier iteration
+				if pred := y.Block().Preds[i]; y.Block().Dominates(pred) && eng.InCycle(y.Block()) {
+					if _, isK := e.(*ssa.Const); !isK {
+						return -1
+					}
+				}
+				if k := classify(e, d+1, seen); k < res {
+					res = k
+				}
+			}
+			return res
+		case *ssa.UnOp:
+			if y.Op == token.MUL {
+				return -1 // kept in a variable or field
+			}
+		case *ssa.ChangeInterface:
+			return classify(y.X, d+1, seen)
+		case *ssa.TypeAssert:
+			return classify(y.X, d+1, seen)
+		case *ssa.Const:
+			return 1 // nil: no pipe at all
+		}
+		return 0
+	}
+	np := 0
+	eng.Instrs(loop, func(in ssa.Instruction) {
+		if !c.P.IsCallTo(in, "(io.Writer).Write", "(io.Closer).Close") {
+			return
+		}
+		cc := in.(ssa.CallInstruction).Common()
+		if !cc.IsInvoke() {
+			return
+		}
+		np++
+		con := fmt.Sprintf("%s/pipe-use#%d/looked-up-for-this-packet", base, np)
+		switch classify(cc.Value, 0, map[ssa.Value]bool{}) {
+		case 1:
+			c.R.OK(rule, con, c.pos(in), "the pipe written to is the one just looked up under the packet's id")
+		case -1:
+			c.R.Fail(rule, con, c.pos(in), "the pipe written to can be one remembered from an earlier packet instead of the one looked up for this packet's id: once its file was completed and the id removed from the table, later DATA for that id is no longer refused - content that was not requested is written and Receive can still succeed")
+		default:
+			c.R.OK(rule, con, c.pos(in), "the receiver of this call is not traced to the table lookup (a shape this rule does not interpret): not decided")
+		}
+	})
 	// who writes receiver.pipes
 	f := c.P.StructField("fsutil", "receiver", "pipes")
 	n := 0
